@@ -39,7 +39,9 @@ MANIFEST = dict(
          'constructor specialised to the call (p-or-default rejected for scalar fields; c09_imm_flow_complete, '
          'c09_only_once_argument_lossy_refuted). Row certificate (c09_row_cert_sound): a heap exported from a real '
          '(original, copy) pair that passes row_cert_ok against the generated census satisfies every premise of the census '
-         'theorem. Keyvalues + / +=: pure, complete and every '
+         'theorem; export_cert_ok decides the completeness premises (nested copies observed equal at EVERY depth, decided '
+         'at a stabilised depth: c09_mobs_eq_decided); both on one heap + the census obligations = the whole property for '
+         'that real pair inside the kernel (c09_real_copy_complete_and_independent). Keyvalues + / +=: pure, complete and every '
          'appended child a fresh copy iff the receiver and the copied-flag of each append site (one per branch) are right. '
          'Operators: a run none of whose stores is tagged with an operand origin leaves every pre-existing object '
          'unchanged and returns only new objects; in-place operators leave everything separated from the receiver '
@@ -50,13 +52,15 @@ MANIFEST = dict(
          'family; collapse_*; table level incl. all_classes_complete_and_independent); census vs run-time identities, '
          'argument flows vs the real constructors on boundary values, export reads vs traced attribute reads, operator '
          'rows vs real calls, kv model vs implementation; exported real object graphs certified in the kernel (separation; '
-         'census rows). Search: identity walk, export equality modulo IDs, random in-place mutation histories on either '
+         'census rows: independence premises and completeness premises). Search: identity walk, export equality modulo IDs, random in-place mutation histories on either '
          'side, boundary value of every scalar field then copy + export, instance collapse with proxies followed by edits '
          'of the target, operand snapshots for every operator.',
     note='Trusted: Coq kernel + vm_compute; the translators\' classification of Python expressions into census rows (each '
          'cross-checked dynamically: census_vs_runtime, flows_vs_runtime, export_reads_vs_runtime, op_census_vs_runtime, '
          'kv_add correspondence; the independence reading of the copy census is additionally decided in the kernel on '
-         'sampled real heaps: certificate:census_rows_hold); the normalisation pre-pass of the copy translator (alias '
+         'sampled real heaps: certificate:census_rows_hold, and its completeness reading with the export masks of all '
+         'labelled nodes: certificate:export_rows_hold — the census label and the census-ordered field list of every '
+         'exported node come from checks/c09.py::export_rows_heap (trusted glue), the masks are computed in the kernel); the normalisation pre-pass of the copy translator (alias '
          'locals, loop-append = comprehension, single-return helpers inlined, guard clause = if/else ...: each rewrite is '
          'exact by construction, unknown shapes stay fail-closed); the flow modes as value functions (flow_fun); '
          'and the reading of a census row as its heap meaning (how_sem / how_complete / tstep / cstep: '
@@ -426,18 +430,16 @@ def export_rows_heap(a: Any, b: Any, ta: Any, tb: Any, label: str, side: dict, e
     """The object graphs of a (original) and b (copy) as a finite heap for the two census certificates: like
     c09_util.export_heap, but every object whose class has a census (the two objects the census `label` speaks about —
     ta inside a, tb inside b — and every nested Solid / Side / DispVertex / Output / Keyvalues ...) gets its fields in
-    CENSUS order and its export mask (a field is observed iff the generated export reads of the class contain it and
-    its kind is not ID / context).  Returns nodes, the OLD locations (a's graph), the locations of ta and tb, the reach
-    set of tb (new-set certificate), the masks and a comparison depth (height of the graph + 1)."""
+    CENSUS order and is returned with its census LABEL (the kernel computes the export mask of the node from the
+    generated tables: `masks_of_labels` in Props/C09.v).  Returns nodes, the OLD locations (a's graph), the locations of
+    ta and tb, the reach set of tb (new-set certificate), the (location, label) list and a comparison depth (height of
+    the graph + 1)."""
     from harness import c09_util as U
-    census, class_of, reads = side['census'], side.get('class_of', {}), eside.get('reads', {})
+    census, class_of = side['census'], side.get('class_of', {})
     label_of_class: dict[str, str] = {}
     for lab in side.get('classes', []):
         label_of_class.setdefault(class_of.get(lab, lab), lab)
 
-    def mask_of(lab: str) -> list[bool]:
-        rd = set(reads.get(class_of.get(lab, lab), []))
-        return [not (r[0] in rd and r[1] not in ('KId', 'KCtx')) for r in census[lab]]
     wa, wb = U.walk(a), U.walk(b)
     locs: dict[int, int] = {}
     objs: list[Any] = []
@@ -452,7 +454,7 @@ def export_rows_heap(a: Any, b: Any, ta: Any, tb: Any, label: str, side: dict, e
         lab = label if (o is ta or o is tb) else label_of_class.get(type(o).__name__)
         if lab is not None and type(o).__name__ == class_of.get(lab, lab):
             kids = [('.' + r[0], getattr(o, r[0])) for r in census[lab]]
-            masks.append((locs[id(o)], mask_of(lab)))
+            masks.append((locs[id(o)], lab))
         else:
             kids = U.children(o)
             if isinstance(o, U.Array):
@@ -547,7 +549,7 @@ def cert_rows(ck: Ck, side: dict, eside: dict) -> None:
             if len(nodes) > 700:
                 continue
             lit = coq_list(f'({loc}%positive, Node {"true" if m else "false"} {coq_list(fld(f) for f in fs)})' for loc, m, fs in nodes)
-            ml = coq_list(f'({loc}%positive, {coq_list("true" if x else "false" for x in mk)})' for loc, mk in masks)
+            ml = '(masks_of_labels ' + coq_list(f'({loc}%positive, "{mlab}"%string)' for loc, mlab in masks) + ')'
             exprs.append(f'let L := {lit} in let O := {pl(old)} in '
                          f'(row_cert_ok L O {la}%positive {lc}%positive {pl(sb)} census_{lab} sources_{lab}, '
                          f'export_cert_ok L O {la}%positive {lc}%positive {ml} {depth} census_{lab} sources_{lab} '
@@ -1244,7 +1246,8 @@ def run(ck: Ck) -> None:
     ck.assumptions.append('a census row means its heap relation (how_sem / how_complete, tstep / cstep tags): the theorems are '
                           'stated over these relations; for the independence relation (how_sem, kind_sem) the relation is DECIDED in '
                           'the kernel on heaps exported from real (original, copy) pairs of every census label '
-                          '(certificate:census_rows_hold); immutable shared values (str, tuple, frozen objects) are atoms')
+                          '(certificate:census_rows_hold), and so is the completeness relation how_complete under the export masks '
+                          '(certificate:export_rows_hold); immutable shared values (str, tuple, frozen objects) are atoms')
     ck.assumptions.append('argument flows: a flow mode means its value function (flow_fun: ident/presence = the value, ordefault = the '
                           'value when truthy, guard/derived = anything); the specialisation of the constructor to the call is '
                           'compared with the real constructor by flows_vs_runtime on boundary values')
